@@ -7,7 +7,8 @@ EXTENDS LiquidGen, LiquidAst
 CONSTANT Variant    \* "ops" (operators over all value pairs) | "trees" (all and/or/not trees, truthy/falsy operands)
 
 Vals == {Nil, Bool(TRUE), Bool(FALSE), IntV(0), IntV(1), IntV(2), Str(""), Str("a"), Str("b"), Str(" "),
-         Arr(<<>>), Arr(<<IntV(1)>>), Arr(<<Str("a"), Str("b")>>), Hash(<< <<"a", IntV(1)>> >>), Range(1, 2)}
+         Arr(<<>>), Arr(<<IntV(1)>>), Arr(<<Str("a"), Str("b")>>), Hash(<< <<"a", IntV(1)>> >>), Range(1, 2),
+         Dec(10, 1), Dec(15, 1)}                \* the floats 1.0 and 1.5
 MCData == {<< <<<<"x", vx>>, <<"y", vy>>>>, <<>>, <<>>, <<>> >> : vx \in Vals, vy \in (IF Variant = "trees" THEN {Nil, IntV(1)} ELSE Vals)}
           \cup {<< <<<<"y", vy>>>>, <<>>, <<>>, <<>> >> : vy \in {Nil, IntV(1), Str("a")}}
 MCCfgs == {Cfg("+", TRUE, FALSE, "default")}
@@ -18,6 +19,7 @@ Y == V("y")
 Ops == {"==", "!=", "<>", "<", ">", "<=", ">="}
 Atoms == {X, Y, TrueE, FalseE, NilE}
 Cmps == {Cmp(op, X, Y) : op \in Ops} \cup {Cmp(op, X, I(1)) : op \in Ops} \cup {Cmp(op, S("a"), Y) : op \in Ops}
+        \cup {Cmp(op, X, FloatE("1.5", 15, 1)) : op \in Ops} \cup {Cmp("==", FloatE("1.0", 10, 1), Y), Cmp("<", FloatE("0.5", 5, 1), I(1))}
         \cup {Cmp("==", X, EmptyE), Cmp("==", BlankE, Y), Cmp("!=", X, BlankE), Cmp("==", X, NilE), Cmp("==", X, TrueE),
               Contains(X, Y), In(X, Y), Contains(X, S("a")), In(I(1), Y)}
 Logic == {And(a, b) : a \in {X, Cmp("==", X, Y)}, b \in {Y, Not(Y), Cmp("<", X, Y)}}
